@@ -2203,10 +2203,11 @@ static ASTNode *parse_primary(Stage1Parser *p) {
                     }
                     free(args);
                     if (func_name) free(func_name);
-                    if (func_expr) free_ast(func_expr);
                     if (module_alias) free(module_alias);
                     if (qualified_func_name) free(qualified_func_name);
-                    if (first_expr && first_expr->type == AST_IDENTIFIER) {
+                    if (func_expr) {
+                        free_ast(func_expr);  /* func_expr IS first_expr: do not look at first_expr afterwards */
+                    } else if (first_expr && first_expr->type == AST_IDENTIFIER) {
                         free(first_expr);
                     }
                     return NULL;
